@@ -36,3 +36,17 @@ func vsNewState() *account.AccountDB {
 var vsTenTo18 = new(big.Int).Exp(big.NewInt(10), big.NewInt(18), nil)
 
 func vsTokens(n uint64) *big.Int { return new(big.Int).Mul(new(big.Int).SetUint64(n), vsTenTo18) }
+
+var (
+	c01Src = "0x00000000000000000000000000000000000000a1"
+	c01B   = "0x00000000000000000000000000000000000000b2"
+	c01C   = "0x00000000000000000000000000000000000000c3"
+)
+
+func c01State() *account.AccountDB {
+	st := vsNewState()
+	st.SetBalance(common.HexToAddress(c01Src), vsTokens(50))
+	st.SetBalance(common.HexToAddress(c01B), vsTokens(5))
+	return st
+}
+
